@@ -698,12 +698,44 @@ func genRequest(r *rand.Rand, o genOpts) request {
 	if r.Intn(6) == 0 {
 		req.exts = append(req.exts, ext{kind: 'X'})
 	}
-	if r.Intn(6) == 0 {
+	// the targets the request names (operation targets and the prefix target), resolvable or not
+	named := []string{}
+	unresolvable := []string{}
+	addNamed := func(t string) {
+		named = append(named, t)
+		for _, b := range targetsBad {
+			if b == t {
+				unresolvable = append(unresolvable, t)
+			}
+		}
+	}
+	if req.prefix.target != "" {
+		addNamed(req.prefix.target)
+	}
+	for _, op := range ops {
+		addNamed(op.target)
+	}
+	// type/version overrides: absent / present; entries for a named target (known, absent from the topology, without
+	// the Configurable aspect) or for another one; model plugin existing or not.  A request naming a target that
+	// cannot be resolved gets, every other time, a well-formed entry for exactly that target.
+	if r.Intn(6) == 0 || (len(unresolvable) > 0 && r.Intn(2) == 0) {
 		e := ext{kind: 'O', decodes: r.Intn(8) != 0}
 		if e.decodes {
+			tvs := [][2]string{{"devicesim", "2.0.0"}, {"devicesim", "1.0.0"}, {"DeviceSim", "1.0.0"}, {"stratum", "1.0"}, {"unknown", "1"}, {"devicesim", ""}}
+			if len(unresolvable) > 0 && r.Intn(4) != 0 {
+				e.ov = append(e.ov, [3]string{env.Pick(r, unresolvable), "devicesim", "1.0.0"})
+				if r.Intn(4) == 0 {
+					tv := env.Pick(r, tvs)
+					e.ov[0][1], e.ov[0][2] = tv[0], tv[1]
+				}
+			}
 			for i := r.Intn(3); i > 0; i-- {
-				tv := env.Pick(r, [][2]string{{"devicesim", "2.0.0"}, {"devicesim", "1.0.0"}, {"DeviceSim", "1.0.0"}, {"stratum", "1.0"}, {"unknown", "1"}, {"devicesim", ""}})
-				e.ov = append(e.ov, [3]string{env.Pick(r, []string{"t1", "t2", "t3", "t5", "ghost"}), tv[0], tv[1]})
+				tv := env.Pick(r, tvs)
+				t := env.Pick(r, []string{"t1", "t2", "t3", "t5", "t6", "ghost"})
+				if len(named) > 0 && r.Intn(2) == 0 {
+					t = env.Pick(r, named)
+				}
+				e.ov = append(e.ov, [3]string{t, tv[0], tv[1]})
 			}
 			// distinct keys (it is a map)
 			seen := map[string]bool{}
